@@ -260,6 +260,7 @@ def obligations(tier):
     guard(obs, "remove-blanks", lambda: ob_remove_blanks(T), FUNCS[:2])
     guard(obs, "num-regex-spec", lambda: numtok.obs_regex("spec"), numtok.FN[1:2])
     guard(obs, "num-strtoint-spec", lambda: numtok.ob_strtoint("spec"), numtok.FN[2:3])
+    obs.append(numtok.ob_strtoint_concrete())
     from harness import C01
 
     obs.append(C01.ob_short_numrow(300))
